@@ -411,3 +411,117 @@ func H_M6_lazy_split() {
 	b = append(b, nd.BytesN(n2)...)
 	mLazyEager(b)
 }
+
+// VLazyReq: an opaque message with a lazy submessage that has required fields
+// (like testopaque.TestRequiredLazy):  optional Req child = 1 [lazy = true]; optional int32 i = 2.
+type VLazyReq struct {
+	state                  MessageState
+	xxx_hidden_Child       *VReqO
+	xxx_hidden_I           int32
+	XXX_lazyUnmarshalInfo  *protolazy.XXX_lazyUnmarshalInfo
+	XXX_raceDetectHookData RaceDetectHookData
+	XXX_presence           [1]uint32
+	unknownFields          UnknownFields
+	sizeCache              SizeCache
+}
+
+var vmiLazyReq *MessageInfo
+
+func (*VLazyReq) ProtoReflect() protoreflect.Message { return vRefl{mi: vMI_LazyReq()} }
+func vMI_LazyReq() *MessageInfo {
+	if vmiLazyReq != nil {
+		return vmiLazyReq
+	}
+	vmiLazyReq = &MessageInfo{}
+	child := vMI_ReqO()
+	cf := vfd("child", 1, protoreflect.MessageKind, opt, false, true, child.Desc.(*vMD))
+	cf.lazy = true
+	md := vmd("v.LazyReq", protoreflect.Proto2, cf, vfd("i", 2, protoreflect.Int32Kind, opt, false, true, nil))
+	var x VLazyReq
+	si := opaqueStructInfo{structInfo: vsi()}
+	si.sizecacheOffset, si.sizecacheType = offsetOfU(unsafe.Offsetof(x.sizeCache)), reflect.TypeOf(x.sizeCache)
+	si.unknownOffset, si.unknownType = offsetOfU(unsafe.Offsetof(x.unknownFields)), reflect.TypeOf(x.unknownFields)
+	si.lazyOffset = offsetOfU(unsafe.Offsetof(x.XXX_lazyUnmarshalInfo))
+	si.presenceOffset = offsetOfU(unsafe.Offsetof(x.XXX_presence))
+	si.fieldsByNumber[1] = vsf(reflect.TypeOf(x.xxx_hidden_Child), unsafe.Offsetof(x.xxx_hidden_Child))
+	si.fieldsByNumber[2] = vsf(reflect.TypeOf(x.xxx_hidden_I), unsafe.Offsetof(x.xxx_hidden_I))
+	vmiLazyReq.Desc = md
+	vmiLazyReq.GoReflectType = reflect.TypeOf(&x)
+	vmiLazyReq.initDone = 1
+	vmiLazyReq.makeOpaqueCoderMethods(reflect.TypeOf(x), si)
+	return vmiLazyReq
+}
+
+// H_M6_lazy_required: Unmarshal without AllowPartial (the decoder is told to check required
+// fields) of a message whose lazily decoded child misses a required field: what proto.Unmarshal
+// does next is `if !initialized { return checkInitialized(m) }`, so the message is reported
+// complete iff the fast-path flag is set or checkInitializedPointer returns nil. That verdict
+// must be the same with and without lazy decoding.
+//
+//verif:props=C10,C17 bounds=VLazyReq{lazy-child-with-required-fields};all-byte-strings<=4(quick)/6(thorough) maxsteps=10000000
+func H_M6_lazy_required() {
+	N := 4
+	if nd.Thorough() {
+		N = 6
+	}
+	b := nd.Bytes(N)
+	mi := vMI_LazyReq()
+	lz := pointer{p: unsafe.Pointer(new(VLazyReq))}
+	eg := pointer{p: unsafe.Pointer(new(VLazyReq))}
+	fl := protoiface.UnmarshalCheckRequired
+	ol := unmarshalOptions{resolver: protoregistry.GlobalTypes, depth: protowire.DefaultRecursionLimit, flags: fl}
+	oe := unmarshalOptions{resolver: protoregistry.GlobalTypes, depth: protowire.DefaultRecursionLimit, flags: fl | protoiface.UnmarshalNoLazyDecoding}
+	outL, errL := mi.unmarshalPointer(b, lz, 0, ol)
+	outE, errE := mi.unmarshalPointer(b, eg, 0, oe)
+	nd.Assert((errL == nil) == (errE == nil), "lazy and eager decoding agree on the error verdict")
+	if errL != nil || errE != nil {
+		nd.Reach("rejected")
+		return
+	}
+	nd.Reach("accepted")
+	completeL := outL.initialized || mi.checkInitializedPointer(lz) == nil
+	completeE := outE.initialized || mi.checkInitializedPointer(eg) == nil
+	if completeE {
+		nd.Reach("complete")
+	} else {
+		nd.Reach("partial")
+	}
+	nd.Assert(completeL == completeE, "Unmarshal without AllowPartial reports a missing required field identically with and without lazy decoding")
+}
+
+func vNodeUnknown(x *VNode, depth int) int {
+	if x == nil || depth == 0 {
+		return 0
+	}
+	return len(x.unknownFields) + vNodeUnknown(x.xxx_hidden_Nested, depth-1)
+}
+
+// H_M6_lazy_discard: with DiscardUnknown, what Marshal emits right after Unmarshal (before any
+// access, i.e. including raw pass-through of lazily stored children) contains no unknown field
+// anywhere in the tree.
+//
+//verif:props=C09,C17 bounds=VNode;child-record(body<=4-free-bytes)+optional-unknown-field;default-resolver maxsteps=10000000
+func H_M6_lazy_discard() {
+	n := nd.Int(0, 4)
+	b := append([]byte{0x4a, byte(n)}, nd.BytesN(n)...)
+	if nd.Bool() {
+		b = append(b, 0x50, nd.Byte()) // unknown varint field 10 at top level
+	}
+	mi := vMI_Node()
+	p := pointer{p: unsafe.Pointer(new(VNode))}
+	o := unmarshalOptions{resolver: protoregistry.GlobalTypes, depth: protowire.DefaultRecursionLimit, flags: protoiface.UnmarshalDiscardUnknown}
+	_, err := mi.unmarshalPointer(b, p, 0, o)
+	nd.Assume(err == nil)
+	nd.Reach("decoded")
+	size := mi.sizePointer(p, marshalOptions{})
+	raw, merr := mi.marshalAppendPointer(nil, p, marshalOptions{})
+	nd.Assert(merr == nil && len(raw) == size, "Size equals Marshal length")
+	// decode the output eagerly, keeping unknown fields, and look for any
+	q := pointer{p: unsafe.Pointer(new(VNode))}
+	oe := unmarshalOptions{resolver: protoregistry.GlobalTypes, depth: protowire.DefaultRecursionLimit, flags: protoiface.UnmarshalNoLazyDecoding}
+	_, qerr := mi.unmarshalPointer(raw, q, 0, oe)
+	nd.Assert(qerr == nil, "Marshal output decodes")
+	if qerr == nil {
+		nd.Assert(vNodeUnknown((*VNode)(q.p), 4) == 0, "after DiscardUnknown no unknown field is re-emitted by Marshal")
+	}
+}
